@@ -285,7 +285,7 @@ var optFields = []string{"limit", "boosts", "ponly", "pboost", "fuzzy", "fthr", 
 
 func genOpts(rt *rapid.T) Opts {
 	var o Opts
-	o.Limit = rapid.SampledFrom([]int{0, 1, 2, 3, 5, 50}).Draw(rt, "limit")
+	o.Limit = rapid.SampledFrom([]int{0, 1, 2, 3, 5, 50, 50, 101, 1000}).Draw(rt, "limit")
 	o.UseNLP = rapid.Bool().Draw(rt, "nlp")
 	o.UseFuzzy = rapid.Bool().Draw(rt, "fuzzy")
 	o.AllPlatforms = rapid.Bool().Draw(rt, "allp")
@@ -297,11 +297,64 @@ func genOpts(rt *rapid.T) Opts {
 	return o
 }
 
+// blowUp cycles the entries up to n (a counter word keeps them distinct): sizes beyond the round numbers code likes
+// to use as caps, batch sizes and "small enough" thresholds (100, 1000, ...).
+func blowUp(base []Cmd, n int) []Cmd {
+	if len(base) == 0 {
+		return base
+	}
+	big := make([]Cmd, 0, n)
+	for i := 0; len(big) < n; i++ {
+		e := base[i%len(base)]
+		e.Description = fmt.Sprintf("%s n%d", e.Description, i)
+		big = append(big, e)
+	}
+	return big
+}
+
+// entangleBoosts gives the options a boost table of several keys that overlap: words of the query, compound keys
+// (script / make-target names such as "docker-build", "test:unit") whose parts are other keys, case variants. Any
+// rule that derives one table entry from several keys meets a collision here, and the table is a map.
+func entangleBoosts(rt *rapid.T, o Opts, query string) Opts {
+	nb := map[string]float64{}
+	for k, v := range o.ContextBoosts {
+		nb[k] = v
+	}
+	words := strings.Fields(strings.ToLower(query))
+	if len(words) == 0 {
+		words = []string{genWord(rt, "eword")}
+	}
+	vals := []float64{1.3, 1.5, 2, 3, 0.5, 1.0585, 2.5}
+	n := rapid.IntRange(2, 5).Draw(rt, "en")
+	for i := 0; i < n; i++ {
+		w := rapid.SampledFrom(words).Draw(rt, "ew")
+		other := genWord(rt, "eother")
+		var k string
+		switch rapid.IntRange(0, 6).Draw(rt, "eform") {
+		case 0, 1:
+			k = w
+		case 2:
+			k = w + "-" + other
+		case 3:
+			k = other + ":" + w
+		case 4:
+			k = w + "_" + other
+		case 5:
+			k = strings.ToUpper(w[:1]) + w[1:]
+		default:
+			k = other
+		}
+		nb[k] = vals[(i+rapid.IntRange(0, len(vals)-1).Draw(rt, "ev"))%len(vals)]
+	}
+	o.ContextBoosts = nb
+	return o
+}
+
 // mutateOpt returns o with exactly one field changed.
 func mutateOpt(rt *rapid.T, o Opts, field string) Opts {
 	switch field {
 	case "limit":
-		o.Limit = rapid.SampledFrom([]int{-1, 0, 1, 2, 3, 5, 10, 50}).Filter(func(v int) bool { return v != o.Limit }).Draw(rt, "limit2")
+		o.Limit = rapid.SampledFrom([]int{-1, 0, 1, 2, 3, 5, 10, 50, 100, 101, 150, 1000, 5000}).Filter(func(v int) bool { return v != o.Limit }).Draw(rt, "limit2")
 	case "boosts":
 		nb := map[string]float64{}
 		for k, v := range o.ContextBoosts {
